@@ -106,23 +106,31 @@ void VLog(const char *fmt, va_list ap)
   g_shm->loglen = len + n + 1;
 }
 
-void PassBatonToController()
+std::atomic<int> g_cur{0};  // mirrors g_current for the spin phase of a hand-over
+void SetCurrent(int to)
 {
-  std::unique_lock lk(g_mu);
-  g_current = 0;
+  {
+    std::lock_guard lk(g_mu);
+    g_current = to;
+    g_cur.store(to, std::memory_order_release);
+  }
   g_cv.notify_all();
 }
-void WaitForBaton(int me)
+void WaitCurrent(int me)
 {
+  for (int i = 0; i < 3000; ++i) {
+    if (g_cur.load(std::memory_order_acquire) == me) return;
+    __builtin_ia32_pause();
+  }
   std::unique_lock lk(g_mu);
   g_cv.wait(lk, [&] { return g_current == me; });
 }
+void PassBatonToController() { SetCurrent(0); }
+void WaitForBaton(int me) { WaitCurrent(me); }
 void YieldToController(int me)
 {
-  std::unique_lock lk(g_mu);
-  g_current = 0;
-  g_cv.notify_all();
-  g_cv.wait(lk, [&] { return g_current == me; });
+  SetCurrent(0);
+  WaitCurrent(me);
 }
 
 int FindBlock(const void *p, bool live_only)
@@ -376,7 +384,12 @@ const char *StatusName(uint32_t s, int sig)
       WaitForBaton(id);
       g_t[id].started = true;
       const auto &ops = (id <= n) ? prog.threads[id - 1] : (id == final_id ? prog.final_ops : prog.init_ops);
-      for (const auto &op : ops) drv.RunOp(prog, id, op);
+      bool first = true;
+      for (const auto &op : ops) {
+        if (!first) YieldToController(id);  // a scheduling point between two API calls
+        first = false;
+        drv.RunOp(prog, id, op);
+      }
       Log("{\"e\":\"tend\",\"t\":%d}", id);
       g_t[id].body_done = true;
       drv.ThreadEnd(prog, id);
@@ -436,12 +449,8 @@ const char *StatusName(uint32_t s, int sig)
     s.enabled = enabled;
     s.flags = g_t[c].spin > 0 ? 1 : 0;
     g_shm->nsteps = step + 1;
-    {
-      std::unique_lock lk(g_mu);
-      g_current = c;
-      g_cv.notify_all();
-      g_cv.wait(lk, [&] { return g_current == 0; });
-    }
+    SetCurrent(c);
+    WaitCurrent(0);
     last = c;
     if (g_shm->status == kLogFull) { status = kLogFull; break; }
   }
